@@ -907,6 +907,15 @@ class Ctx(object):
             v = solve(fmls + ax, timeout_ms=self.ex.verdict_timeout_ms)
             tot += v.secs
             hows.append(v.how)
+            if v.status != "unsat" and any(theory._collect(fmls).values()):
+                # second, patient attempt: the law instances depend on side queries with short time-outs
+                ax2 = theory.instantiate(fmls, self.ex.verdict_timeout_ms, patient=True)
+                if len(ax2) > len(ax) or v.status == "unknown":
+                    v2 = solve(fmls + ax2, timeout_ms=3 * self.ex.verdict_timeout_ms)
+                    tot += v2.secs
+                    hows.append("patient:" + v2.how)
+                    if v2.status == "unsat" or v.status == "unknown":
+                        v, ax = v2, ax2
             if v.status != "unsat":
                 break
         if v is None or v.status == "unsat":
